@@ -67,7 +67,7 @@ def build(desc, T, spatial):
     if desc["oor"]:
         flat[0] = "1000.5" if desc["dt"] == "numstr" else 1000
     if desc["nonfinite"]:
-        flat[-1] = np.nan if desc["nonfinite"] == "nan" else np.inf
+        flat[-1] = {"nan": np.nan, "inf": np.inf, "neginf": -np.inf}[desc["nonfinite"]]
     if desc["msk"] != "no":
         m = np.zeros(shape, dtype=bool)
         if desc["msk"] == "invalid":
@@ -98,7 +98,7 @@ def rand_desc(r, p_bad=0.25):
         d["nd"] = r.choice([False, None]); return d
     d["dt"] = r.choice(["float64"] * 4 + ["float32", "int", "int", "numstr"] + (["unconv"] if r.random() < p_bad else []))
     if r.random() < p_bad * 0.5: d["ndim"] = r.choice([2, 4])
-    if d["dt"].startswith("float") and r.random() < 0.3: d["nonfinite"] = r.choice(["nan", "inf"])
+    if d["dt"].startswith("float") and r.random() < 0.3: d["nonfinite"] = r.choice(["nan", "inf", "neginf"])
     if r.random() < 0.3: d["oor"] = True
     if r.random() < 0.3 and d["dt"] != "numstr": d["msk"] = r.choice(["valid", "invalid"])
     if not feasible(d):
@@ -144,7 +144,7 @@ def correspondence(res, tier, seed):
     # systematic: every single malformation class in every argument position, others good
     good = dict(nd=True, dt="float64", ndim=3, nonfinite=False, oor=False, msk="no")
     singles = [dict(good, nd=False), dict(good, nd=None), dict(good, dt="float32"), dict(good, dt="int"), dict(good, dt="numstr"), dict(good, dt="unconv"),
-               dict(good, ndim=2), dict(good, ndim=4), dict(good, nonfinite="nan"), dict(good, nonfinite="inf"), dict(good, oor=True),
+               dict(good, ndim=2), dict(good, ndim=4), dict(good, nonfinite="nan"), dict(good, nonfinite="inf"), dict(good, nonfinite="neginf"), dict(good, oor=True),
                dict(good, msk="valid"), dict(good, msk="invalid"), dict(good, msk="invalid", oor=True), dict(good, dt="int", msk="invalid"),
                dict(good, dt="int", oor=True)]
     for pos in range(3):
